@@ -147,9 +147,23 @@ func (m *c16) runOp(op *c16Op) {
 			}
 			for i, a := range args {
 				if op.destPrefix && i == 0 {
-					// only the prefix (and the canaries outside the capacity) are protected
-					if !bytes.Equal(a.arena[:a.off+a.n], a.snap[:a.off+a.n]) || !bytes.Equal(a.arena[a.off+a.n+a.spare:], a.snap[a.off+a.n+a.spare:]) {
-						c.Violation("wrote:"+op.name+":"+a.name, op.name+" changed the destination prefix or memory outside its capacity", d)
+					// an append destination: the prefix is protected, the appended bytes may land in the spare
+					// capacity, and nothing behind the appended bytes (rest of the spare capacity, canaries) may change
+					// (a multi-step append may fill part of the spare capacity and then reallocate: each spare byte
+					// is either untouched or holds the byte that was appended at that position)
+					appended := []byte{}
+					if len(res) >= a.n {
+						appended = res[a.n:]
+					}
+					bad := !bytes.Equal(a.arena[:a.off+a.n], a.snap[:a.off+a.n]) || !bytes.Equal(a.arena[a.off+a.n+a.spare:], a.snap[a.off+a.n+a.spare:])
+					for k := 0; k < a.spare && !bad; k++ {
+						pos := a.off + a.n + k
+						if a.arena[pos] != a.snap[pos] && (k >= len(appended) || a.arena[pos] != appended[k]) {
+							bad = true
+						}
+					}
+					if bad {
+						c.Violation("wrote:"+op.name+":"+a.name, op.name+" changed the destination prefix or memory other than the bytes it appended", d)
 						return
 					}
 					continue
@@ -355,7 +369,9 @@ func (m *c16) ops() []*c16Op {
 		call:   func(a [][]byte) []byte { return clone(quicwire.AppendUint8Bytes(a[0], a[1])) }})
 	add(&c16Op{name: "quicwire.AppendVarint", group: "codec", names: []string{"destination"}, destPrefix: true,
 		inputs: func(r *core.Rand) [][]byte { return [][]byte{r.Bytes(r.IntN(6))} },
-		call:   func(a [][]byte) []byte { return clone(quicwire.AppendVarint(a[0], 16384)) }})
+		call: func(a [][]byte) []byte {
+			return clone(quicwire.AppendVarint(a[0], []uint64{5, 300, 16384, 1 << 40, 63, 64}[len(a[0])%6]))
+		}})
 	add(&c16Op{name: "quicwire.Consume*", group: "codec", names: []string{"input"},
 		inputs: func(r *core.Rand) [][]byte { return [][]byte{quicwire.AppendVarintBytes(nil, r.Bytes(r.Of(3, 70)))} },
 		call: func(a [][]byte) []byte {
